@@ -22,7 +22,8 @@ REAL = ["DataSourcingActor", "MicrogridApiSource.add_metric / _update_streams / 
 STUB = ["microgrid API data streams (fake)", "subscribers (harness receivers created before each request)"]
 RULE = ("one run = 3-5 components of all four categories, 60-200 events: a data message of a component (per-component "
         "sequence number in every metric field) or a subscription request (new (namespace, metric), exact duplicate, unknown "
-        "component id), separated by no yield / sleep(0) / small gaps / bursts; non-trivial = a subscription arrived while "
+        "component id), separated by no yield / sleep(0) / small gaps / bursts; device clocks increasing / coarse (equal stamps) / "
+        "stepping back; API down at drawn instants (actor restart); non-trivial = a subscription arrived while "
         "the component was already streaming (task hand-over); distinct = abstract digest of (event kind, component) sequence")
 QUICK_RUNS = 4000
 THOROUGH_RUNS = 250_000
